@@ -3,6 +3,13 @@ import json, os, random
 import common, gen
 from common import Report
 
+MANIFEST = dict(
+    technique='Coq proof that every realizable call stack is bounded (generic theorem over the static call graph + guard set regenerated from SSA each run, instance by vm_compute) + nesting drivers and limit boundaries on the implementation',
+    text="Theorem stack_depth_bounded: for every path in the parser's static call graph on which depth-guard frames have callees only while the counter is within the limit, the number of frames is at most (MaxRecursionDepth+2)*(max rank+1), independent of the input; proved generically and instantiated on the call graph, guard set (increment + deferred decrement + dominating limit check recognised on SSA) and rank witness regenerated from the current source, the acyclicity hypothesis discharged by complete evaluation. 45+ self-embedding productions are driven to depths around the limit and far beyond in a child process on a reused and a fresh parser (depth-counter leaks, history dependence, crashes); size and token limits are checked exactly at and one past their boundaries through each entry point.",
+    note=common.BASE_NOTE + "Static call graph complete for direct calls (dynamic call sites listed in evidence); frame sizes are the compiler's; size/token-limit clauses are exploration-level until the tokenizer loop model lands.",
+    design='6/C02')
+
+
 
 def rep(s, d):
     """s repeated d times with a newline after every 20th copy (the tokenizer's position bookkeeping is
